@@ -67,14 +67,66 @@ def _field(model, name, allowed_empty, ansi_type):
         "_field_name": name, "_is_allowed_to_be_empty": allowed_empty, "_empty_value": None, "sql_ansi_type": sql_ansi_type}, label=name)
 
 
+def own_keywords(model, dialect_name):
+    """The keyword list literal a dialect's own constructor assigns (folded from the syntax tree)."""
+    from ..model import walk_own
+
+    init = model.cls(DIALECTS[dialect_name]).methods.get("__init__")
+    if init is None:
+        return None
+    lists = {}
+    for node in walk_own(init.node):
+        if isinstance(node, ast.Assign) and isinstance(node.value, ast.List) and all(isinstance(e, ast.Constant) for e in node.value.elts):
+            for target in node.targets:
+                if isinstance(target, ast.Name):
+                    lists[target.id] = {e.value for e in node.value.elts}
+    for node in walk_own(init.node):
+        if isinstance(node, ast.Assign) and any(ast.unparse(t) == "self._keywords" for t in node.targets):
+            names = [n.id for n in ast.walk(node.value) if isinstance(n, ast.Name) and n.id in lists]
+            if names:
+                return lists[names[0]]
+    return None
+
+
+def rule_keyword_sets(ctx):
+    """O19.3: after construction each dialect answers is_keyword from the keyword list its OWN constructor spells out."""
+    model = ctx.model
+    ctx.res.minimum("O19.3", 4)
+    from ..absint import Chooser
+
+    for dialect_name in DIALECTS:
+        interp = Interp(model, Chooser())
+        dialect = interp.instantiate(ClassRef(model.cls(DIALECTS[dialect_name])), [], {})
+        actual = interp.getattr(dialect, "keywords")
+        expected = own_keywords(model, dialect_name)
+        what = "%s dialect uses its own keyword list (%s words)" % (dialect_name, len(expected) if expected else "?")
+        where = where_of(model, DIALECTS[dialect_name] + ".__init__")
+        if expected is None:
+            ctx.res.fail("O19.3", what, "%s.__init__:O19.3:keywords-not-found" % DIALECTS[dialect_name].replace("cutplace.", ""), where,
+                         "no keyword list literal assigned to self._keywords in the constructor")
+        elif set(actual) == expected:
+            ctx.res.ok("O19.3", what, True, {"sample": sorted(expected)[:5]})
+        else:
+            missing = sorted(expected - set(actual))[:6]
+            extra = sorted(set(actual) - expected)[:6]
+            ctx.res.fail("O19.3", what, "%s.__init__:O19.3:keywords" % DIALECTS[dialect_name].replace("cutplace.", ""), where,
+                         "after construction the %s dialect's keywords differ from the list its constructor spells out (missing e.g. %s, extra e.g. %s): "
+                         "names reserved in this dialect are not quoted" % (dialect_name, missing, extra))
+
+
 def rule_columns(ctx):
     model = ctx.model
     ctx.res.minimum("O19.1", 1)
+    ansi_words = own_keywords(model, "ANSI") or set()
 
     def cell(ch):
         dialect_name = ch.choose("dialect", list(DIALECTS))
         flags = [ch.choose(("empty allowed", index), [False, True]) for index in range(3)]
-        names = ["customer_id", "select", "Order"]  # "select"/"order" are keywords of every dialect
+        own = own_keywords(model, dialect_name) or set()
+        only_here = sorted(own - ansi_words)
+        only_ansi = sorted(ansi_words - own)
+        # a plain name, a word reserved in this dialect (preferably only there), a word reserved elsewhere only
+        names = ["customer_id", only_here[0] if only_here else "select", (only_ansi[0] if only_ansi else "Order")]
         interp = Interp(model, ch)
         fields = [_field(model, names[index], flags[index], ("varchar", 10 + index)) for index in range(3)]
         cid = Obj(model.cls("cutplace.interface.Cid"), {"_field_formats": fields, "_field_names": names}, label="cid")
@@ -94,7 +146,7 @@ def rule_columns(ctx):
         keywords = interp.getattr(dialect, "keywords")
         for index, line in enumerate(lines[:3]):
             name = names[index]
-            is_keyword = name.lower() in keywords
+            is_keyword = name.lower() in own
             expected_name = '"%s"' % name if is_keyword else name
             if not line.startswith(expected_name + " "):
                 problems.append("column %d is %r, expected name %s" % (index, line, expected_name))
@@ -228,4 +280,4 @@ def rule_decimal_and_text(ctx):
                      "text columns return %s" % text)
 
 
-RULES = [rule_columns, rule_integer_types, rule_decimal_and_text]
+RULES = [rule_keyword_sets, rule_columns, rule_integer_types, rule_decimal_and_text]
